@@ -121,9 +121,39 @@ class GuardAnalysis:
         evs.sort(key=lambda e: e[0])
         return evs
 
+    def decorator_checks(self, m):
+        """True when a project decorator of m calls <self>.check_fit() before every call of the wrapped function."""
+        for d in m.decorators:
+            D = self.prog.functions.get(d)
+            if D is None or not D.params:
+                continue
+            wrapped = D.params[0]
+            for W in [n for n in ast.walk(D.node) if isinstance(n, ast.FunctionDef) and n is not D.node]:
+                if not W.args.args:
+                    continue
+                p = W.args.args[0].arg
+                calls = [c for c in walk_no_nested(W) if isinstance(c, ast.Call) and isinstance(c.func, ast.Name) and c.func.id == wrapped]
+                checks = [c for c in walk_no_nested(W) if isinstance(c, ast.Call) and isinstance(c.func, ast.Attribute) and c.func.attr in CHECK_NAMES
+                          and isinstance(c.func.value, ast.Name) and c.func.value.id == p]
+                if not calls or not checks:
+                    continue
+                cfg = CFG(W)
+                dom = cfg.dominators(exceptional=False)
+                ok = True
+                for c in calls:
+                    nc = cfg.node_containing(c)
+                    if nc is None or not any(cfg.node_containing(k) is not None and cfg.node_containing(k).id in dom.get(nc.id, ()) and cfg.node_containing(k).id != nc.id
+                                             for k in checks):
+                        ok = False
+                if ok:
+                    return True
+        return False
+
     def _analyse(self, cls, m, F):
         if not m.self_name:
             return True, False, None
+        if self.decorator_checks(m):
+            return True, True, None
         cfg = self.cfg(m)
         witness = []
         overrides = self.ctx.cg.instance_overrides(cls)
